@@ -52,7 +52,7 @@ def c12(tier):
     acknowledged entry stored in the file must be durably consumed."""
     ck = PE.EngineCheck("C12", tier)
     mc = PE.contract_mc(tier)
-    n = 1500 if tier == "thorough" else 160
+    n = 600 if tier == "thorough" else 160
     cfgs = [{"backend": "fd", "mode": "strict", "pe": 1}, {"backend": "mmap", "mode": "strict", "pe": 1},
             {"backend": "fd", "mode": "strict", "pe": 1}, {"backend": "fd", "mode": "alo", "pe": 2}]
     behs = PE.load_corpus_files("C12") + _c12_corpus(n, C.seed(), cfgs) + G.corpus("oreclaim", "tiny", max(20, n // 8), C.seed(), cfgs=cfgs, prefix="orc_")
